@@ -117,16 +117,40 @@ class GdbMode(_Base):
         return res
 
 
+class LongSessions(Stage):
+    """thousands of messages: an id created and destroyed up to 1500 times in a row, sessions lasting long enough for large
+    times; lifetimes, annotations and lifespans compared around the letter boundaries, every 97th step and at the end"""
+    name = 'long-sessions'
+    kind = 'given'
+
+    def examples(self, tier):
+        return 10 if tier == 'quick' else 14 * 12
+
+    def gen(self, d, tier):
+        return dict(dialect=d.choice(['new', 'old']), template=histgen.gen_long_template(d))
+
+    def execute(self, case):
+        specs = histgen.expand_long(case['template'])
+        tr, res = tracker.run_long_history(specs, CHECKS, case.get('dialect', 'new'))
+        tracker.check_after_close(tr, res)
+        t = case['template']
+        res.nontrivial = t['cycles'] >= 27 and t['gap'] > 0
+        res.label('incarnations>=703' if t['cycles'] >= 703 else 'incarnations>=27')
+        res.label('delete_id-sent(server-log)' if t['side'] == 'server' else 'delete_id-received(client-log)')
+        res.sample = dict(template=t, n=len(specs))
+        return res
+
+
 class C03(Prop):
     id = 'C03'
     rule = ('Hypothesis rule-based machine (and whole generated histories) over client- and server-side logs with non-decreasing microsecond '
             'timestamps; after every step: alive set per connection = model, no object alive again once seen dead, at most one alive per id, '
             'create/destroy times, destroyed annotation exactly on delete_id lines with the model\'s object and exact lifespan (+-1 last digit), '
             'implicit destruction of reused server-range ids. non-trivial = history with a delete_id of an object created earlier at an '
-            'earlier time, or a server-range reuse; distinct by SHA-1 of the spec list.')
+            'earlier time, or a server-range reuse; distinct by SHA-1 of the spec list. long-sessions: templates expanded to thousands of messages (an id through up to 1500 incarnations), same comparisons around the letter boundaries, every 97th step, the last 60 and after close.')
     assumptions = ['well-formed histories as constructed by histgen; timestamps non-decreasing, no 32-bit wrap-around',
                    'lifespans: exact integer microseconds in the model; shown value may differ by 1 in the last printed digit']
-    stages = [Machine(), Histories(), GdbMode()]
+    stages = [Machine(), Histories(), LongSessions(), GdbMode()]
 
 
 PROP = C03()
